@@ -139,7 +139,7 @@ Theorem C15_refs_point_to_definitions : forall (fold pres : bytes -> bytes) root
   refs_leaf root = true ->
   let r := refs fold pres root (collect fold pres (top_defs root) 0 [], 0%N) in
   Forall (fun p : bytes * N * N =>
-            (exists d, In d (top_defs root) /\ fst (fst p) = pres (pres (def_name d))) /\ (1 <= snd p)%N)
+            (exists d, In d (top_defs root) /\ fst (fst p) = pres (def_name d)) /\ (1 <= snd p)%N)
          (all_refs (fst r)).
 Proof. exact refs_point_to_definitions. Qed.
 Print Assumptions C15_refs_point_to_definitions.
@@ -196,11 +196,11 @@ Proof. vm_compute. split; reflexivity. Qed.
    reference node of the processed tree carries a number k >= 1 such that the k-th definition at the tail of the root
    exists and has the reference's name; those definitions have pairwise distinct names and each is referenced. *)
 Theorem C15_ix_contiguous : forall (fold pres : bytes -> bytes) (perm : list fdef -> list fdef) root,
-  (forall x, pres (pres x) = pres x) -> (forall x y, pres x = pres y -> fold x = fold y) ->
+  (forall x y, pres x = pres y -> fold x = fold y) ->
   (forall m, Permutation (perm m) m) -> is_def root = false -> refs_leaf root = true ->
   let t := process fold pres perm root in
   refs_resolve t = true /\ defs_once_and_referenced t = true.
-Proof. intros fold pres perm root I C P D L. exact (process_ix_contiguous fold pres I perm P root C D L). Qed.
+Proof. intros fold pres perm root C P D L. exact (process_ix_contiguous fold pres perm P root C D L). Qed.
 Print Assumptions C15_ix_contiguous.
 
 (* the definitions process appends carry the numbers 1, 2, .., n in this order (n = the walk's counter) *)
